@@ -1,38 +1,26 @@
 package main
 
 // In-package vsim harness for the proxy (mapped into apps/proxy by the build
-// overlay; never written to /repo).  TCP, TLS and the HTTP status server are
-// not executed: the harness performs the same wiring as start() and runs the
-// real handleMessages over simulated connections.
+// overlay; never written to /repo).  TLS is not executed.  Two optional files
+// provide the two ways of running a session: zz_vsim_opt_start_test.go (the
+// program's real start() over the simulated network) and
+// zz_vsim_opt_direct_test.go (the wiring of start() done by the harness, the
+// real handleMessages over one pair of simulated connections).  A file that no
+// longer compiles against a changed program is dropped by the build; this core
+// file needs only the report feed, the queue and the message log.
 
 import (
-	"io"
-	"log/slog"
-	"net"
 	"testing"
-	"time"
 
 	circularQueue "github.com/goblimey/go-ntrip/apps/proxy/circular_queue"
 	reportfeed "github.com/goblimey/go-ntrip/apps/proxy/reportfeed"
-	rtcm "github.com/goblimey/go-ntrip/rtcm/handler"
-	"github.com/goblimey/go-tools/dailylogger"
 	"verif/vsim/harness/lib"
 	"verif/vsim/hx"
-	vsimrt "verif/vsim/rt"
 )
 
-func vsimSetup(logDir string) {
-	slog.SetDefault(slog.New(slog.NewTextHandler(io.Discard, nil)))
-	// the wiring of start(), with gated goroutines
-	byteChan = make(chan byte)
-	messageChan = make(chan rtcm.Message)
-	rtcmHandler = rtcm.New(time.Now(), slog.LevelInfo)
-	vsimrt.Go("proxy-parser", func() { rtcmHandler.HandleMessages(byteChan, messageChan) })
-	recentMessages = circularQueue.NewCircularQueue(maxNumberOfMessagesStored)
-	vsimrt.Go("proxy-queue-updater", func() { keepCircularQueueUpdated(messageChan, recentMessages) })
-	rtcmLog = dailylogger.New(logDir, "data.", ".rtcm")
-	SetReportFeed(reportfeed.New(rtcmLog, recentMessages))
-}
+// set by the optional files when they are part of the build
+var vsimStartHooks *lib.ProxyStartHooks
+var vsimDirectHooks *lib.ProxyDirectHooks
 
 func vsimQueueRaw() [][]byte {
 	var out [][]byte
@@ -44,14 +32,15 @@ func vsimQueueRaw() [][]byte {
 
 func TestVsim(t *testing.T) {
 	hooks := lib.ProxyHooks{
-		Setup:  vsimSetup,
-		Handle: func(server, client net.Conn) { handleMessages(server, client, false, 1) },
 		Status: func() []byte { return reportFeed.Status() },
 		EmptyStatus: func() []byte {
 			return reportfeed.New(rtcmLog, circularQueue.NewCircularQueue(maxNumberOfMessagesStored)).Status()
 		},
 		QueueRaw: vsimQueueRaw,
 		QueueCap: maxNumberOfMessagesStored,
+		Reset:    vsimReset,
+		Listener: vsimStartHooks,
+		Direct:   vsimDirectHooks,
 	}
 	hx.Main(t, &hx.Prop{ID: "C19", Run: lib.C19(hooks)})
 }
